@@ -222,6 +222,19 @@ CHECKS["C16"] = dict(
     technique="Lean 4 per-event theorems + start-up characterisation over a manager model (counterexample theorem for the known finding) + differential correspondence with the real ContractManager/HashrateEthereum over a fake Ethereum client under synctest",
     design="5/C16", engine="contractmanager")
 
+CHECKS["C08"] = dict(
+    text="Kernel-checked theorems over a model of the seller controller and the watcher's start / stop / expiry, for every controller "
+         "state, chain state and instant: miners are allocated only while the held terms say purchased, not over and with a "
+         "destination (invariant: a running watcher has a destination); a close stops the fulfilment at once and expiry stops it; a "
+         "purchase or destination update whose payload is empty or does not decrypt starts nothing, stops a running fulfilment and sets "
+         "the error (no payload stops the node: the handlers are total); a live contract is engaged from the purchase on, re-engaged "
+         "after close and re-purchase, and resumed by a node started at any point of its life, while a contract that is not live is not "
+         "started; a destination update to another valid pool is followed. The real ContractFactory / ControllerSeller / watcher / "
+         "Allocator / Schedulers run over a faked Ethereum node and fake miners with really encrypted destinations: the controller "
+         "lines are compared op by op with the model and the miners' destinations are judged against the chain truth.",
+    technique="Lean 4 per-event theorems + invariant over a seller-controller model + differential correspondence with the real controller/watcher/allocator over a fake Ethereum client and fake miners under synctest + trace monitor on miner destinations",
+    design="5/C08", engine="contract")
+
 NOT_YET = {}
 
 ALL = ["C%02d" % i for i in range(1, 21)]
